@@ -132,6 +132,9 @@ theorem chipset_error_opt_bridge (o : Option Nat) :
   unfold Gen.Fn.pn53x_chipset_error_opt
   cases o <;> simp only [Option.map, Option.getD, Int.toNat_natCast] <;> rfl
 
+/-- `chipset_error(None)` (`get_general_status`): `Chipset.Error(0xff)` - the `None` case of the `int | None` instance -/
+example : Gen.Fn.pn53x_chipset_error_opt none = .error (.chipsetError 0xFF) := rfl
+
 example : Gen.Fn.pn53x_chipset_error_bytes [0x27, 1] = .error (.chipsetError 0x27) := by decide
 example : Gen.Fn.pn53x_chipset_error_bytes [] = .error .index := by decide
 
